@@ -5,7 +5,7 @@ Import ListNotations.
 
 (** ** reflection: the finite domains as lists, membership proved structurally (component by component),
     statements over all configurations / variants decided by ONE vm_compute each and lifted with forallb_forall *)
-Lemma in_all_src s : In s all_src. Proof. destruct s; cbn; auto 7. Qed.
+Lemma in_all_src s : In s all_src. Proof. destruct s; cbn; auto 9. Qed.
 Lemma in_all_tr t : In t all_tr. Proof. destruct t; cbn; auto 8. Qed.
 Lemma in_all_snk k : In k all_snk. Proof. destruct k; cbn; auto. Qed.
 Lemma in_all_trig g : In g all_trig. Proof. destruct g; cbn; auto. Qed.
@@ -79,7 +79,7 @@ Proof. revert c. apply all_cfg_bool. vm_compute. reflexivity. Qed.
 Lemma lattice_fixed : forallb (fun c => good_out (run_job jfixed c)) all_cfgs = true.
 Proof. vm_compute. reflexivity. Qed.
 
-Lemma lattice_size : length all_cfgs = 3456.
+Lemma lattice_size : length all_cfgs = 4320.
 Proof. vm_compute. reflexivity. Qed.
 
 Lemma run_accepted v c : o_accepted (run_job v c) = accepted v c.
